@@ -1,13 +1,130 @@
-"""Per-property claim texts for MANIFEST.json (kept next to the obligation table)."""
-TB = "Trusted: Kani MIR->goto translation, CBMC float_bv (one NaN), kissat/cvc5. "
+"""Per-property claim texts for MANIFEST.json and per-property evidence metadata."""
+TB = "Trusted: Kani 0.68 MIR->goto translation, CBMC 6.11 float_bv (one NaN; its fma is replaced by a corrected model on zero factors, its f64 `%` is not used by any claimed clause - DESIGN section 8), kissat/cvc5, rustc + host FPU for native replay and ground evaluation. "
+T_PROOF = "contract proof (Kani/CBMC bit-precise), modular contract stubs, native replay of counterexamples"
+T_MITER = "contract proof: miter of the real body against the published algorithm / the inherent function (Kani/CBMC, cvc5 and Ackermann stubs), leaf contracts proved per exponent gap, native replay judged by exact Fix arithmetic"
+T_MIX = "contract proof of totality/domain/structure clauses (Kani/CBMC, value-independent operator stubs) + native evaluation of the finite exact-point sets; accuracy clauses not decided"
+
 CLAIMS = {
-    "C07": {
-        "text": "Proved for all 2^128 pairs of f64 bit patterns: no_overlap's real body (libm exp2/copysign/fabs compiled from source and verified through) equals Definition 1.4; is_valid and both TryFrom impls proved against the definition modularly over no_overlap's contract, words preserved bit for bit, conversion back returns them, otherwise ConversionError.",
-        "note": TB + "No assumed lemma, no bounded stand-in, no precondition.",
+    "C01": {
+        "text": "Proved for all valid operands in the stated ranges that the result is a valid TwoFloat: the ten +/- operator and compound-assignment bodies, the five * bodies, to_degrees/to_radians, TwoFloat/f64 and /=, new_div (modular: new_add/new_sub/new_mul/fast_two_sum replaced by their contracts, which are proved for all inputs per exponent gap under C02), Neg; floor/ceil/trunc/round/fract (C08), From<int> (C09), abs/min/max (C06), constants (C12) through their own checks. NOT decided: f64/TwoFloat, TwoFloat/TwoFloat, /=TwoFloat, recip, %, div_euclid, rem_euclid, the elementary functions, and the induction over arbitrary call chains.",
+        "note": TB + "Rests on the leaf contracts discharged by C02's check (thorough: all 297 obligations) and on lemma L0 (valid_bits == Definition 1.4, proved under C07). Elementary functions and long division: not decided (magnitude reasoning through polynomial evaluation / three-digit long division is out of reach).",
+        "technique": T_PROOF,
+    },
+    "C02": {
+        "text": "Proved for ALL finite operand pairs below 2^1023 at full 53-bit width: fast_two_sum (under its precondition), new_add and new_sub return hi == RN(a+-b), a valid pair, and hi + lo == a +- b exactly - one obligation per difference of the exponent fields (-56..56), two far cases, zero-operand case and a coverage lemma (thorough: 297 obligations, all discharged; quick: far/zero cases + 2 seeded gaps per function). new_mul: hi == RN(ab) for all pairs (quick) and valid whenever ab is 0 or in [2^-960, 2^1023) (thorough). from_f64/From<f64> exact. new_div: bit-identical to Algorithm 15 and valid (under C05/C01). NOT decided: hi + lo == ab exactly for new_mul (2Prod theorem, assumed) and the 3*2^-106 bound of new_div at full width.",
+        "note": TB + "Exactness is stated by a gap-anchored integer window predicate that is sufficient for real-number equality by construction (lemma exact_cases_are_contract ties the per-gap predicates to the contract's predicate); natively every counterexample is judged by exact 2432-bit fixed-point arithmetic.",
+        "technique": T_PROOF + "; leaf obligations case-split on the exponent gap",
+    },
+    "C03": {
+        "text": "Proved for all operand word patterns: each of the ten +/- operator and compound-assignment bodies is bit-identical to the published algorithm (Alg. 4 DWPlusFP / Alg. 6 AccurateDWPlusDW of Joldes-Muller-Popescu 2017) composed of the contracted leaves; proved: an exactly-zero sum yields (0,0) in all eight spellings; the leaves are error-free transformations (C02, all inputs). The 2u^2 and 3u^2+13u^3 bounds then follow from the published theorem for these algorithms (assumed lemma; Coq-formalised by Muller-Rideau 2022). Native replay of any counterexample judges the stated bound itself in exact arithmetic. Iterator::sum == left fold: not decided (CBMC fails on the iterator fold).",
+        "note": TB + "Assumed lemma: error bounds of Alg. 4 / Alg. 6 (published + Coq). A failing miter is reported as a violation of the named obligation; when the solver's model does not violate the bound natively the line ends with no-failing-input-found.",
+        "technique": T_MITER,
+    },
+    "C04": {
+        "text": "Proved for all operand word patterns: the five * bodies are bit-identical to Alg. 9 (DWTimesFP3) / Alg. 12 (DWTimesDW3) over new_mul, fast_two_sum and the fma primitive; proved for valid in-range operands: zero factor => (0,0), x*(+-1) == +-x in every spelling, x*2^k exact when lo*2^k does not underflow; results valid (C01). The 2u^2 / 5u^2 bounds follow from the published theorems (assumed lemma) given that new_mul is 2Prod (hi == RN(ab) proved; exactness of the fma remainder assumed). Model-agreement obligation: corrected fma model == hardware fma on 240 seeded triples.",
+        "note": TB + "Assumed lemmas: error bounds of Alg. 9 / Alg. 12; 2Prod exactness. CBMC's fma is wrong for an exact-zero factor with a large-exponent cofactor (found here, reproduced standalone); value obligations install a corrected model, miters are insensitive to the model.",
+        "technique": T_MITER,
+    },
+    "C05": {
+        "text": "Proved for all operand word patterns: TwoFloat/f64, /=f64 and new_div are bit-identical to Alg. 15 (DWDivFP3); recip(x) == 1.0/x bit for bit; /= TwoFloat == / (C10). Proved for valid in-range operands: x/(+-1.0) exact, x/2^k exact without underflow, zero numerator => zero (all three pairings). Native ground set: x/x == 1, x/TwoFloat(+-1), x/TwoFloat(8), recip on 126 structured operands. NOT decided: the 16*2^-106 bound of the three-digit long division (f64/TwoFloat, TwoFloat/TwoFloat, /=, recip) and x/x == 1 for all x.",
+        "note": TB + "Assumed lemma: 3u^2 bound of Alg. 15 (published + Coq). No published theorem exists for the qd-style long division used for TwoFloat divisors: its accuracy clause is not decided by this technique.",
+        "technique": T_MITER,
     },
     "C06": {
         "text": "Proved for all valid a, b and all f64 c: partial_cmp and < <= > >= == != (TwoFloat/TwoFloat, TwoFloat/f64, f64/TwoFloat) equal the lexicographic order of the words; for ALL 2^256 word patterns: == symmetric, == iff partial_cmp == Some(Equal), any NaN word => unequal and unordered both ways; min/max return an operand, extremal, skipping an invalid operand; abs/is_sign_*/signum/copysign follow the sign of hi. Lemma L-sign (value has the sign of hi; Fix arithmetic) proved in quick; lemma L-bracket (8 one-pair Fix cases) in thorough.",
         "note": TB + "The step 'lexicographic order of valid pairs == order of exact values' (L-lex) is mechanised only as L-bracket (thorough) + monotonicity of neighbours + transitivity on the reals (pen and paper, DESIGN section 3); natively every counterexample is re-judged with exact Fix comparison. no_overlap is replaced by its contract (proved under C07).",
+        "technique": T_PROOF,
+    },
+    "C07": {
+        "text": "Proved for all 2^128 pairs of f64 bit patterns: no_overlap's real body (libm exp2/copysign/fabs compiled from source and verified through) equals Definition 1.4; is_valid and both TryFrom impls proved against the definition modularly over no_overlap's contract, words preserved bit for bit, conversion back returns them, otherwise ConversionError.",
+        "note": TB + "No assumed lemma, no bounded stand-in, no precondition.",
+        "technique": T_PROOF,
+    },
+    "C08": {
+        "text": "Proved for every valid x (no range limit): floor, ceil, trunc, round, fract return a valid pair whose exact value equals the 'rounding of a normalised pair' formula (fast_two_sum replaced by its exactness contract; libm modf/floor/ceil/round/trunc proved bit-equal to mask-arithmetic specifications for all f64). The formulas are tied to the definitional roundings of hi+lo in 2432-bit fixed point by five one-pair lemmas (thorough) and are differential-tested against them at setup; natively every counterexample is judged by the definitional rounding, including trunc(x)+fract(x) == x.",
+        "note": TB + "Quick tier assumes the five pair-formula lemmas (proved in thorough, about 20 min each; spec self-test on 10^6 operands at setup).",
+        "technique": T_PROOF,
+    },
+    "C09": {
+        "text": "Proved for every value of the type: From<i8..u32> exact; From<i64|u64|i128|u128> valid, exact up to 106 significant bits, else within 2^-106|n| (Fix arithmetic); T::try_from(x) for valid x and all ten integer types: Ok(t) iff T::MIN <= trunc(value) <= T::MAX and t == trunc(value) (trunc replaced by its C08 contract; 64/128-bit targets in thorough), non-finite x => Err, T::try_from(TwoFloat::from(n)) == Ok(n) for all n of the 8..64-bit types; f64/f32 conversions; ToPrimitive/FromPrimitive routes agree; NumCast::from(i64) exact.",
+        "note": TB + "Two defects found by these obligations were repaired in /repo (known_findings.json: From<i128> not normalised; NumCast::from(2^53+1)).",
+        "technique": T_PROOF,
+    },
+    "C10": {
+        "text": "Proved for all operand word patterns: for + - * / % and the three operand pairings every by-value / by-reference / compound-assignment spelling is bit-identical to the &a op &b body (15 obligations, 5 comparisons each; % with its quotient/trunc/product/difference as arbitrary fixed functions); -x == -&x, -(-a) == a, x+f == f+x, x*f == f*x; 45 num_traits entry points (Float, FloatCore, Signed, Inv, Pow<i8..u16,i32,f64,TwoFloat>, Zero/One, Bounded, FloatConst, mul_add, abs_sub) return exactly what the inherent counterpart returns (Ackermann stubs). NOT decided: a+b == b+a, a-b == a+(-b) == -(b-a), (-a)*b == -(a*b) for TwoFloat operands (cvc5 time-out) and Iterator::sum == fold (CBMC failure).",
+        "note": TB + "Ackermann stubs: the delegation obligations state which function is called with which arguments, independently of the function's value.",
+        "technique": T_MITER,
+    },
+    "C11": {
+        "text": "Proved in the --no-default-features --features math_funcs build, libm::fma replaced by its assumed contract (the IEEE fma primitive): new_mul(a,b) == (RN(ab), fma(a,b,-RN(ab))) for all pairs and the seven bodies that use the private fma are bit-identical to Alg. 9 / 12 / 15 over that primitive, for all operand patterns - the same obligations C04/C05 discharge in the default build, so both builds compute the same function of the same primitive. The cfg-selected fma is the only feature-dependent numeric item (inventory in DESIGN).",
+        "note": TB + "Assumed contract: libm::fma and the platform's f64::mul_add are correctly rounded fused multiply-adds (external code; libm's software path dispatches through inline asm that Kani cannot execute).",
+        "technique": T_MITER,
+    },
+    "C12": {
+        "text": "Complete finite check: each of the 19 consts (and FloatConst accessor, C10) equals bit for bit the correctly rounded double-double derived independently in integer fixed point at 420 bits (enclosures exclude every rounding boundary; cross-checked with mpmath); MAX/MIN valid and extremal among all valid values (proved for all x), MIN_POSITIVE, NAN != NAN, infinities invalid; the private angle factors equal RN2(180/pi), RN2(pi/180) and to_degrees/to_radians are bit-identical to x * factor for all x (their 6*2^-106 bound then rests on C04's assumed 5u^2 theorem).",
+        "note": TB + "Trusted data: refdata/constants.json (re-derived by `gen_consts.py --verify` at setup).",
+        "technique": "ground evaluation of a finite set against independently derived reference words + contract proofs (Kani/CBMC)",
+    },
+    "C13": {
+        "text": "Proved: powi never panics for any i32 exponent (complete 32-fold unwinding, overflow checks on); powi(x,0) == 1 / NaN, powi(x,1) == x; sqrt of every negative valid x is invalid, sqrt(0) == 0; sqrt/cbrt/hypot total. Bounded: powi(x,-n) == powi(x,n).recip() for n <= 3 on the real operators, plus a native ground set up to n = i32::MAX; exact points sqrt(+-0), cbrt(+-0). NOT decided: every accuracy bound.",
+        "note": TB + "Operators are value-independent stubs in the totality obligations. Two defects found and repaired (powi(x, i32::MIN) overflow; cbrt(0) == NaN).",
+        "technique": T_MIX,
+    },
+    "C14": {
+        "text": "Proved for every valid argument: exp, exp2, exp_m1, powf never panic (range reduction through the real TwoFloat - f64 with leaf contracts must keep the quarter-range assertion and every table index in bounds); exp(x) == 0 for x <= -750, non-finite for x >= 710, exp2(x) == 0 for x <= -1080, non-finite for x >= 1024; powf case table (0^0 invalid, x^0 == 1, 0^y == 0, negative base with non-integer y invalid, integer y gives +-|x|^y). Ground: exp(+-0), exp_m1(0), exp2(k) == 2^k for all 2045 integers k, parity rule of powf on 520 exponents incl. 2^53+1, 2^60+1. NOT decided: every accuracy floor.",
+        "note": TB + "CBMC mis-models the f64 remainder used by powf's parity test: that clause is decided natively only. One defect found and repaired (exp panicked on (0.75, -4e-17)).",
+        "technique": T_MIX,
+    },
+    "C15": {
+        "text": "Proved for every valid argument: ln, log2, log10, ln_1p, log never panic; ln/log2 of x <= 0 and ln_1p of x <= -1 are invalid; log10(x) == x.ln()/RN2(ln 10) bit for bit (ln an arbitrary fixed function). Ground: ln(1) = log2(1) = log10(1) = ln_1p(0) = 0, log2(2^k) == k for all 1961 integers k in [-1000, 960], log(x,b) == ln x / ln b. NOT decided: every tolerance.",
+        "note": TB + "One defect found and repaired (log2(1) returned 1).",
+        "technique": T_MIX,
+    },
+    "C16": {
+        "text": "Proved for every argument: sin, cos, tan, sin_cos never panic and an invalid argument gives an invalid result; sin_cos(x) == (sin x, cos x) bit for bit (argument reduction and the two restricted polynomials arbitrary fixed functions: the three quadrant dispatch tables agree). Ground: sin(0), cos(0), tan(0), sin_cos(0). NOT decided: the 2^-66 / 2^-64 / 2^-50 accuracy clauses.",
+        "note": TB,
+        "technique": T_MIX,
+    },
+    "C17": {
+        "text": "Proved: asin/acos of |x| > 1 or of an invalid x are invalid; atan2 on the axes returns exactly 0, +-pi/2, +-pi following the signs (incl. atan2(+-0, x<0) == +-pi); asin/acos/atan/atan2 total. Ground: asin(0) = atan(0) = acos(1) = 0, asin(+-1), acos(-1) to 2^-100, the tabulated atan(1/2), atan(3/2) are the correctly rounded double-doubles. NOT decided: the accuracy clauses.",
+        "note": TB,
+        "technique": T_MIX,
+    },
+    "C18": {
+        "text": "Proved: the six hyperbolic functions never panic on valid arguments (exp/ln/sqrt value-independent). Ground: the six exact points; acosh(x<1), atanh(|x|>=1) invalid on 5 sample points. NOT decided: every accuracy clause (including asinh for negative arguments, where executing the code shows cancellation - DESIGN section 7, D7) and the domain rules for all x.",
+        "note": TB + "Weakest claim of the set: only totality is universal.",
+        "technique": T_MIX,
+    },
+    "C19": {
+        "text": "Proved for all operand patterns: a % b, a % f, f % b are a - trunc(a/b)*b and %= agrees (C10); rem_euclid(a,b) is r + |b| for a negative remainder r = a % b, else r (operators arbitrary fixed functions). Complete finite check: %, %=, div_euclid, rem_euclid are exact for all 262,656 integer pairs |a|,|b| <= 256 (both f64 spellings) and on 64 pairs below 2^53. NOT decided: the 16*2^-106 tolerance for general operands.",
+        "note": TB,
+        "technique": "contract proof of the structure (Ackermann stubs) + exhaustive native evaluation of a finite operand set",
+    },
+    "C20": {
+        "text": "Proved with the serde feature, mock Deserializer/SeqAccess/MapAccess/Serializer: sequence form: Ok exactly when the input carries a valid (hi, lo) pair, words bit-identical, short sequences rejected; map form, every key sequence of length <= 3 over {hi, lo, other} with arbitrary values: Ok exactly with one hi and one lo (either order) forming a valid pair, words bit-identical, otherwise Err; serialize emits struct TwoFloat {hi, lo} in order, bit-identical - for all f64 pairs. Text: checked natively on 10 structured values x 3 traits x {plain, +, .p} only.",
+        "note": TB + "Map length bounded by 3 (unwinding assertion on). The text clauses are statements about core::fmt and f64::from_str: not decided beyond the sample.",
+        "technique": "contract proof (Kani/CBMC) with mock serde endpoints; native evaluation of a finite text sample",
     },
 }
 NOT_CLAIMED = {}
+
+META = {
+    "C01": {"undecided_clauses": ["f64/TwoFloat, TwoFloat/TwoFloat, /= TwoFloat, recip, %, div_euclid, rem_euclid validity", "elementary functions validity", "induction over arbitrary call sequences"], "assumed_lemmas": []},
+    "C02": {"undecided_clauses": ["new_mul: hi + lo == a*b exactly (2Prod theorem assumed)", "new_div: 3*2^-106 bound at full width (rests on the assumed theorem for Alg. 15)"], "assumed_lemmas": []},
+    "C03": {"undecided_clauses": ["Iterator::sum == left fold (CBMC fails on the iterator fold)"], "assumed_lemmas": ["error bound 2u^2 of Alg. 4 and 3u^2+13u^3 of Alg. 6 (Joldes-Muller-Popescu 2017, Coq: Muller-Rideau 2022)"]},
+    "C04": {"undecided_clauses": [], "assumed_lemmas": ["error bounds of Alg. 9 (2u^2) and Alg. 12 (<= 5u^2)", "2Prod: fma(a, b, -RN(ab)) == ab - RN(ab) exactly absent underflow"]},
+    "C05": {"undecided_clauses": ["16*2^-106 bound of the long division (f64/TwoFloat, TwoFloat/TwoFloat, /=, recip)", "x/x == 1 for all x (ground sample only)"], "assumed_lemmas": ["error bound 3u^2 of Alg. 15"]},
+    "C06": {"undecided_clauses": [], "assumed_lemmas": ["L-lex (lexicographic order of valid pairs == order of exact values): L-bracket proved in thorough + monotonicity + transitivity on the reals (un-mechanised)"]},
+    "C08": {"undecided_clauses": [], "assumed_lemmas": ["in quick: the five pair-formula lemmas (proved in thorough)"]},
+    "C10": {"undecided_clauses": ["a+b == b+a, a-b == a+(-b) == -(b-a), (-a)*b == -(a*b) for TwoFloat operands", "Iterator::sum == left fold"], "assumed_lemmas": []},
+    "C11": {"undecided_clauses": ["correctness of libm::fma's software path and of the platform fma"], "assumed_lemmas": [], "assumed_contracts": ["libm::fma == IEEE fused multiply-add"]},
+    "C12": {"undecided_clauses": ["6*2^-106 bound of the angle conversions beyond 'x * correctly rounded factor' (rests on C04's assumed theorem)"], "assumed_lemmas": []},
+    "C13": {"undecided_clauses": ["32/16/48*2^-106 and (6|n|+16)*2^-106 accuracy", "powi(x,-n) == powi(x,n).recip() for all n (bounded n <= 3 + ground set)", "sign of powi for negative x beyond the ground set"], "assumed_lemmas": []},
+    "C14": {"undecided_clauses": ["every accuracy floor", "parity rule of powf for all integer y (ground set only: CBMC mis-models f64 %)"], "assumed_lemmas": []},
+    "C15": {"undecided_clauses": ["every tolerance", "log10 of x <= 0 invalid (follows from ln; ground sample)"], "assumed_lemmas": []},
+    "C16": {"undecided_clauses": ["2^-66 / 2^-64 / 2^-50 accuracy"], "assumed_lemmas": []},
+    "C17": {"undecided_clauses": ["2^-45 / 2^-43 / 2^-70 / 2^-69 accuracy"], "assumed_lemmas": []},
+    "C18": {"undecided_clauses": ["every accuracy clause", "acosh(x<1) / atanh(|x|>=1) invalid for all x (ground sample only)"], "assumed_lemmas": []},
+    "C19": {"undecided_clauses": ["16*2^-106*max(|a|,|b|) tolerance and the adjacent-integer proviso for general operands", "div_euclid floor/ceil sense for non-integer operands"], "assumed_lemmas": []},
+    "C20": {"undecided_clauses": ["text clauses beyond the native sample (core::fmt / f64::from_str)"], "assumed_lemmas": []},
+}
